@@ -20,6 +20,10 @@ func init() {
 
 func runC02(c *CaseCtx) {
 	r := c.Rng
+	if c.Case%16 == 9 {
+		largeHistory(c, "sparse-kv", largeOpts{Kind: "kv", Modes: []int{2}})
+		return
+	}
 	cfg := randCfg(r, []int{2}, 150, 600)
 	nKeys := []int{6, 12, 25, 40}[r.Intn(4)]
 	manyTxPerSegment := c.Case%5 == 4
